@@ -87,4 +87,4 @@ func canonN(limit int, b []byte) string {
 	return fmt.Sprintf("#%d.%d", len(b), fnv64(b))
 }
 
-func canon(b []byte) string { return canonN(24, b) }
+func canon(b []byte) string { return canonN(48, b) }
